@@ -1,14 +1,25 @@
 /- Line-protocol driver for the renormalisation model on softfloat bit patterns.
-   <fmt:16|32|64> <eager|functional|vecsum> <fast:0|1> <b1,b2,...>   ->   <o1,o2,...>   (−0 printed as 0) -/
+   <fmt:16|32|64> <eager|functional|vecsum> <fast:0|1> <b1,b2,...>   ->   <o1,o2,...>   (−0 printed as 0)
+   <fmt> <square-eager|square-functional> <size> <b1,...>                 products of expansions: the model's raw accumulation,
+   <fmt> <multiply-eager|multiply-functional> <size> <b1,...|c1,...>      renormalised and cut to `size` items; two_prod = the
+                                                                           REGENERATED traced program (Generated/C12.lean) -/
 import FAVerif.Models.Renorm
 import FAVerif.FP.Soft
-open FAVerif.FP FAVerif.Renorm
+import FAVerif.Generated.C12
+open FAVerif.FP FAVerif.Renorm FAVerif.IR
 
 def fmtOf : String → Option Fmt
   | "16" => some binary16 | "32" => some binary32 | "64" => some binary64 | _ => none
 
 def arithSoft (f : Fmt) : Arith Nat :=
   { add := FAVerif.FP.add f, sub := FAVerif.FP.sub f, zero := 0, isZero := fun b => magBits f b == 0 }
+
+/-- the error-free product on bit patterns: the traced `apmath.two_prod` of the current source -/
+def tpSoft (f : Fmt) (a b : Nat) : Nat × Nat :=
+  let p := if f.p = 11 then FAVerif.Gen.C12.two_prod_f16 else if f.p = 24 then FAVerif.Gen.C12.two_prod_f32 else FAVerif.Gen.C12.two_prod_f64
+  match p.eval (fun _ _ => none) [a, b] with
+  | some [h, l] => (h, l)
+  | _ => (f.nanBits, f.nanBits)
 
 def showBits (f : Fmt) (b : Nat) : String :=
   if isNaNBits f b then "nan" else if magBits f b == 0 then "0" else toString b
@@ -26,7 +37,24 @@ def evalLine (line : String) : String :=
         | _ => none
       match out with
       | some o => ",".intercalate (o.map (showBits f))
-      | none => "bad-op"
+      | none =>
+        -- products: `fast` field carries the size limit
+        match mode with
+        | "square-eager" => ",".intercalate (((renormEager A false (squareRaw A (tpSoft f) false l)).take fast).map (showBits f))
+        | "square-functional" => ",".intercalate (((renormFunctional A false (squareRaw A (tpSoft f) false l)).take fast).map (showBits f))
+        | _ => "bad-op"
+    | some f, some size, none =>
+      match xs.splitOn "|" with
+      | [x1, x2] =>
+        match (x1.splitOn ",").mapM String.toNat?, (x2.splitOn ",").mapM String.toNat? with
+        | some l1, some l2 =>
+          let A := arithSoft f
+          match mode with
+          | "multiply-eager" => ",".intercalate (((renormEager A false (mulRaw A (tpSoft f) false l1 l2)).take size).map (showBits f))
+          | "multiply-functional" => ",".intercalate (((renormFunctional A false (mulRaw A (tpSoft f) false l1 l2)).take size).map (showBits f))
+          | _ => "bad-op"
+        | _, _ => "bad-op"
+      | _ => "bad-op"
     | _, _, _ => "bad-op"
   | _ => "bad-op"
 
